@@ -3,6 +3,8 @@
 package rest
 
 import (
+	"sync/atomic"
+	"errors"
 	"context"
 	"encoding/json"
 	"fmt"
@@ -326,7 +328,26 @@ func c17PullRound(t *testing.T, run *vlib.Run, round int, proto string) {
 	delay := time.Duration(r.Range(30, 80)) * time.Millisecond
 	slowFirst := r.Bool() // only the first batch's documents are stored slowly / all are
 	slowLookup := batchSize < 200 && r.Bool() // the pulling side looks up the first batch's documents slowly while it answers the changes message
+	// in a third of the rounds the pulling side's store refuses the write of one wanted document once (transient storage error):
+	// that revision stays announced-and-unprocessed for the rest of the run, so no persisted checkpoint may reach its sequence
+	refusedDoc := ""
+	if r.Chance(1, 3) {
+		var wanted []string
+		for _, d := range docs {
+			if !d.Known {
+				wanted = append(wanted, d.ID)
+			}
+		}
+		if len(wanted) > 0 {
+			refusedDoc = wanted[r.Intn(len(wanted))]
+		}
+	}
+	var refusedOnce atomic.Bool
 	vsA.SetFault(func(op *base.VerifOp, actor string) base.VerifDecision {
+		if refusedDoc != "" && op.Kind == "WriteUpdateWithXattrs" && op.Key == refusedDoc && refusedOnce.CompareAndSwap(false, true) {
+			run.Count("pulled_revisions_refused_once_by_a_transient_storage_error", 1)
+			return base.VerifDecision{Action: base.VerifFailBefore, Err: errors.New("verif: injected transient storage error")}
+		}
 		if slowLookup && strings.HasPrefix(op.Kind, "Get") && strings.HasPrefix(op.Key, "c17l-") {
 			for i := 0; i < batchSize && i < len(docs); i++ {
 				if docs[i].ID == op.Key {
@@ -442,6 +463,9 @@ func c17PullRound(t *testing.T, run *vlib.Run, round int, proto string) {
 	for {
 		missing := 0
 		for _, d := range docs {
+			if d.ID == refusedDoc && refusedOnce.Load() {
+				continue // refused once: only a restart of the replication retries it
+			}
 			if ok, _ := activeRaw.Exists(context.Background(), d.ID); !ok {
 				missing++
 			}
@@ -456,6 +480,9 @@ func c17PullRound(t *testing.T, run *vlib.Run, round int, proto string) {
 		time.Sleep(5 * time.Millisecond)
 	}
 	time.Sleep(30 * time.Millisecond)
+	if refusedOnce.Load() {
+		time.Sleep(120 * time.Millisecond) // let some checkpoint ticks pass after the refusal
+	}
 	_ = ar.Stop()
 	mu.Lock()
 	run.Count("checkpoint_values_judged", judged)
